@@ -72,7 +72,16 @@ declare_class(
 )
 # groups and names chromosomes across haplotypes: opaque here (its effect is limited to Scaffold.name, see the
 # TRUSTED contracts in specs/build_assembly.py)
-declare_class("ChrNamer", fields={"chr_prefix": STR})
+declare_class("ChrGroup", fields={})
+declare_class(
+    "ChrNamer",
+    fields={
+        "chr_prefix": STR,
+        "scaffolds": TList(TTuple([STR, TRef("Scaffold")])),
+        "haplotypes_seen": TDict(STR, BOOL),
+        "groups": TOpt(TList(TRef("ChrGroup"))),
+    },
+)
 
 # --- FASTA side -----------------------------------------------------------------------------
 # Abstract bytes values are triples (kind, first, n):
